@@ -1,5 +1,3 @@
 module verif/sim
 
 go 1.21
-
-require golang.org/x/tools v0.29.0
